@@ -3704,6 +3704,17 @@ func recv(n *node) {
 	tnext := getExec(n.tnext)
 	i := n.findex
 	l := n.level
+	// In an assignment, the received value is set in the assigned variable, field or
+	// element, which keeps its identity. Otherwise it replaces the content of the frame location.
+	isAssign := n.anc.kind == assignStmt
+	set := func(f *frame, r reflect.Value) {
+		data := getFrame(f, l).data
+		if isAssign && data[i].CanSet() {
+			data[i].Set(r)
+			return
+		}
+		data[i] = r
+	}
 
 	if n.interp.cancelChan {
 		// Cancellable channel read
@@ -3713,7 +3724,7 @@ func recv(n *node) {
 				// Fast: channel read doesn't block
 				ch := value(f)
 				if r, ok := ch.TryRecv(); ok {
-					getFrame(f, l).data[i] = r
+					set(f, r)
 					if r.Bool() {
 						return tnext
 					}
@@ -3728,6 +3739,7 @@ func recv(n *node) {
 				if chosen == 0 {
 					return nil
 				}
+				set(f, v)
 				if v.Bool() {
 					return tnext
 				}
@@ -3738,7 +3750,7 @@ func recv(n *node) {
 				// Fast: channel read doesn't block
 				ch := value(f)
 				if r, ok := ch.TryRecv(); ok {
-					getFrame(f, l).data[i] = r
+					set(f, r)
 					return tnext
 				}
 				// Slow: channel is blocked, allow cancel
@@ -3746,11 +3758,11 @@ func recv(n *node) {
 				done := f.done
 				f.mutex.RUnlock()
 
-				var chosen int
-				chosen, getFrame(f, l).data[i], _ = reflect.Select([]reflect.SelectCase{done, {Dir: reflect.SelectRecv, Chan: ch}})
+				chosen, r, _ := reflect.Select([]reflect.SelectCase{done, {Dir: reflect.SelectRecv, Chan: ch}})
 				if chosen == 0 {
 					return nil
 				}
+				set(f, r)
 				return tnext
 			}
 		}
@@ -3759,16 +3771,17 @@ func recv(n *node) {
 		if n.fnext != nil {
 			fnext := getExec(n.fnext)
 			n.exec = func(f *frame) bltn {
-				if r, _ := value(f).Recv(); r.Bool() {
-					getFrame(f, l).data[i] = r
+				r, _ := value(f).Recv()
+				set(f, r)
+				if r.Bool() {
 					return tnext
 				}
 				return fnext
 			}
 		} else {
-			i := n.findex
 			n.exec = func(f *frame) bltn {
-				getFrame(f, l).data[i], _ = value(f).Recv()
+				r, _ := value(f).Recv()
+				set(f, r)
 				return tnext
 			}
 		}
